@@ -18,6 +18,7 @@
 -/
 import PestModel.Front.Parse
 import PestModel.Lemmas.FrontTotalScan
+import PestModel.Lemmas.FrontStrip
 
 namespace Pest
 namespace Front
@@ -210,25 +211,73 @@ theorem pyInt_tok {N : Nat} {t : Token} (ht : TokOK N t)
 section funs
 variable {N : Nat} {S : Token → Prop} {eof : Token} {ts : List Token}
 
+theorem isDigits_stripZeros {v : Text} (h : ∀ c ∈ v, isDigit c = true) : IsDigits (stripZeros v) :=
+  ⟨stripZeros_ne_nil v, stripZeros_all h⟩
+
+/-- the literal `parse_int` hands to `int()` is in `int()`'s domain -/
+theorem pyInt_intLiteral {v : Text} (h : IsIntLit v) : pyInt (intLiteral v) ≠ none := by
+  rcases h with h | ⟨ds, rfl, h⟩
+  · rw [intLiteral_pos (head_ne_minus_of_digits h.2)]
+    exact pyInt_digits (isDigits_stripZeros h.2)
+  · rw [intLiteral_neg]
+    exact pyInt_neg (isDigits_stripZeros h.2)
+
+theorem intLit_tok {N : Nat} {t : Token} (ht : TokOK N t)
+    (hk : t.kind = .number ∨ t.kind = .integer) : IsIntLit t.value := by
+  have hv := ht.val
+  rcases hk with hk | hk
+  · rw [hk] at hv; exact .inl hv
+  · rw [hk] at hv; exact hv
+
 theorem parseInt_sat {t : Token} (ht : TokS N S t) (hk : t.kind = .number ∨ t.kind = .integer) :
     (parseInt t eof ts).Sat N S (fun _ ts' => ts' = ts) := by
   unfold parseInt
-  have := pyInt_tok ht.toTokOK hk
-  cases hp : pyInt t.value with
+  have := pyInt_intLiteral (intLit_tok ht.toTokOK hk)
+  cases hp : pyInt (intLiteral t.value) with
   | none => exact absurd hp this
   | some o =>
     cases o with
     | none => exact ht.err
     | some v => exact rfl
 
+/-- at most ten digits never hit `int()`'s digit limit -/
+theorem pyInt_short {ds : Text} (h : IsDigits ds) (hl : ds.length ≤ 10) : ∃ v, pyInt ds = some (some v) := by
+  obtain ⟨hne, hall⟩ := h
+  cases ds with
+  | nil => exact absurd rfl hne
+  | cons c r =>
+    have hc : c ≠ 45 := by
+      intro e
+      have := hall c (by simp)
+      rw [e] at this
+      revert this; decide
+    have hall' : (c :: r).all isDigit = true := List.all_eq_true.mpr hall
+    unfold pyInt
+    split
+    · rename_i neg ds heq
+      split at heq
+      · rename_i r' heq'
+        cases heq'
+        exact absurd rfl hc
+      · cases heq
+        simp only [List.isEmpty_cons, hall', Bool.not_true, Bool.or_self, Bool.false_eq_true, if_false]
+        rw [if_neg (by omega)]
+        exact ⟨_, rfl⟩
+
 theorem parseNumber_sat {t : Token} (ht : TokS N S t) (hk : t.kind = .number) :
     (parseNumber t eof ts).Sat N S (fun _ ts' => ts' = ts) := by
   unfold parseNumber
-  refine PR.Sat.bind' (parseInt_sat ht (.inl hk)) (fun v ts' h => ?_)
-  subst h
+  have hv := ht.toTokOK.val
+  rw [hk] at hv
   split
   · exact ht.err
-  · exact rfl
+  · rename_i hl
+    obtain ⟨v, hp⟩ := pyInt_short (isDigits_stripZeros hv.2) (by omega)
+    rw [hp]
+    simp only
+    split
+    · exact ht.err
+    · exact rfl
 
 theorem stripQuotes_lit (body : Text) : stripQuotes (39 :: (body ++ [39])) = body := by
   simp [stripQuotes]
